@@ -104,7 +104,7 @@ func runFile(c *fw.Ctx, f filedrv.File) {
 		}
 		wantRecs := f.RecordsBefore(complete)
 		reg := region(f, cut)
-		for mode := 0; mode < filedrv.NumModes; mode++ {
+		for mode := 0; mode < filedrv.NumReadModes; mode++ {
 			c.Eval(1)
 			c.Nontrivial(fmt.Sprintf("%s/%d/%d", f.Name, cut, mode))
 			desc := fmt.Sprintf("file %s (%d bytes) cut at %d (%s), reader %s", f.Name, len(f.Data), cut, reg, filedrv.ModeName(mode))
@@ -132,7 +132,7 @@ func runFile(c *fw.Ctx, f filedrv.File) {
 			}
 		}
 	}
-	c.Sample(map[string]interface{}{"file": f.Name, "bytes": len(f.Data), "cuts": len(f.Data) + 1, "reader_modes": 3, "blocks": f.Comp})
+	c.Sample(map[string]interface{}{"file": f.Name, "bytes": len(f.Data), "cuts": len(f.Data) + 1, "reader_modes": filedrv.NumReadModes, "blocks": f.Comp})
 }
 
 func init() {
@@ -144,7 +144,7 @@ func init() {
 			if tier == "thorough" {
 				n = 5
 			}
-			return fmt.Sprintf("every cut position 0..len of every file of the family {3 schemas} × {null,deflate,snappy} × every composition of <=%d records into blocks (records of 1..200 encoded bytes; plus a 70-record block per codec for 2-byte count varints; plus, per codec, two Big files — a 3000-record highly compressible block and a 3/90/3-record file whose middle block is >100 KiB on the wire — cut at every header position, within ±3 of every block landmark and 64 KiB chunk boundary, and at every 97th/251st byte elsewhere), written by the reference writer, × reader behaviour {full reads, 1-byte reads, data together with EOF}; a case is one (file, cut, reader mode); non-trivial = ReadFile ran on the prefix and its deliveries and error were compared with the oracle derived from the reference layout", n)
+			return fmt.Sprintf("every cut position 0..len of every file of the family {3 schemas} × {null,deflate,snappy} × every composition of <=%d records into blocks (records of 1..200 encoded bytes; plus a 70-record block per codec for 2-byte count varints; plus, per codec, two Big files — a 3000-record highly compressible block and a 3/90/3-record file whose middle block is >100 KiB on the wire — cut at every header position, within ±3 of every block landmark and 64 KiB chunk boundary, and at every 97th/251st byte elsewhere), written by the reference writer, × reader {full reads, 1-byte reads, data together with EOF, a *bytes.Buffer, a *bufio.Reader with a 16-byte buffer}; a case is one (file, cut, reader mode); non-trivial = ReadFile ran on the prefix and its deliveries and error were compared with the oracle derived from the reference layout", n)
 		},
 		Assumptions: []string{
 			"files are produced by the reference writer (ref.WriteFile), whose layout offsets define which blocks are completely present at a cut",
